@@ -95,7 +95,7 @@ def fam_variants(nmax: int, *, batch: int = 2, cross: bool = False) -> Iterator[
 
 def fam_faults(nmin: int, nmax: int, *, max_faults: int = 1, batch: int = 2, kinds=('raise', 'died'),
                cofs=(True, False), perms: bool = False, reqs: str = 'subsets', types: str = 'TA',
-               pre: bool = False) -> Iterator[Config]:
+               pre: bool = False, fault_exc: str = 'boom') -> Iterator[Config]:
     """DAG shapes x requested subsets x fault sets (size 1..max_faults) x fault
     kind x continue_on_failure; optionally all label permutations."""
     for n in range(nmin, nmax + 1):
@@ -120,7 +120,8 @@ def fam_faults(nmin: int, nmax: int, *, max_faults: int = 1, batch: int = 2, kin
                                 for p in pres:
                                     for cof in cofs:
                                         yield Config(spec=spec, requested=tuple((i, False) for i in req),
-                                                     precached=tuple(p), faults=faults, died=died, cof=cof, batch=batch)
+                                                     precached=tuple(p), faults=faults, died=died, cof=cof, batch=batch,
+                                                     fault_exc=fault_exc)
 
 
 def fam_limits(nmin: int, nmax: int, *, batch: int = 2, tnames=('TA', 'TB', 'TC'), faults: bool = False,
@@ -133,6 +134,9 @@ def fam_limits(nmin: int, nmax: int, *, batch: int = 2, tnames=('TA', 'TB', 'TC'
                 spec = mk_spec(shape, types=types)
                 req = tuple((i, False) for i in range(n))
                 yield Config(spec=spec, requested=req, batch=batch, stutter=stutter)
+                if 1 < n <= 3 and any(shape):
+                    # every reference is a fresh equal instance (duplicates of limited-type tasks)
+                    yield Config(spec=mk_spec(shape, types=types, dup=True), requested=req + ((0, True),), batch=batch, stutter=stutter)
                 if n > 1 and n <= 3:
                     # dependents ahead of their dependencies in the coordinator's pending order
                     yield Config(spec=spec, requested=tuple(reversed(req)), batch=batch, stutter=stutter)
@@ -144,7 +148,7 @@ def fam_limits(nmin: int, nmax: int, *, batch: int = 2, tnames=('TA', 'TB', 'TC'
 
 
 def fam_e3(bases: Iterable[Config], *, backends=('fork', 'spawn'), workers=(1, 2, None), cpu_count: int = 2,
-           die_exit0=(False,), liveness: bool = True):
+           die_exit0=(False,), liveness: bool = True, monitor: bool = False):
     """Real ProcessRunner configurations over the virtual OS for the given base configurations."""
     from .e3 import E3Config
     for b in bases:
@@ -154,7 +158,7 @@ def fam_e3(bases: Iterable[Config], *, backends=('fork', 'spawn'), workers=(1, 2
                     if dx and not b.died:
                         continue
                     yield E3Config(base=b, backend=be, max_workers=mw, cpu_count=cpu_count, die_exit0=dx,
-                                   liveness_choice=liveness)
+                                   liveness_choice=liveness, monitor=monitor)
 
 
 def fam_real(bases: Iterable[Config], *, backends=('fork', 'spawn'), workers=(2,)):
